@@ -586,12 +586,14 @@ theorem receive_ok (st : WState) (token : List WProof) (o : ReceiveOracle) : All
   unfold receive
   split
   · simp
-  · simp only
-    split
-    · split
-      · split <;> simp [swap_reqs, ok_getReq, ok_swapReq_stripped, swapProofs_ok]
-      · simp [ok_getReq, swapProofs_ok]
-    · exact swapAndSave_ok _ _ _ _ _
+  · split
+    · simp
+    · simp only
+      split
+      · split
+        · split <;> simp [swap_reqs, ok_getReq, ok_swapReq_stripped, swapProofs_ok]
+        · simp [ok_getReq, swapProofs_ok]
+      · exact swapAndSave_ok _ _ _ _ _
 
 theorem receiveHTLC_ok (st : WState) (token : List WProof) (d h sa : Bool) (outs : List Output)
     (ans : Option (List Sig)) : AllOk (receiveHTLC st token d h sa outs ans).reqs := by
